@@ -16,7 +16,11 @@ RULE = ("random DirectedHypergraph instances (3-9 nodes, 1-12 proposed hyperedge
         "both keep_edges values where shrunk hyperedges coincide with stored ones, copies mid-way); after every call the "
         "listings are compared with a reference object and the degrees with the definition, at marked points and at the "
         "end (for half of the instances once more after one hyperedge was replaced by its reverse in place) every bound m in 2..7 (end) or one bound (mid-way), every node, size filters none/1..7 and the order "
-        "filters 0..6; a case is distinct by its final canonical hyperedge list and node list; non-trivial when exact, "
+        "filters 0..6; extension round: the routines run loop by loop by the model (tot / edge_set / node_reach / bin_edges / rec, "
+        "2-d signature accumulation, default bound), the degree calls under 8 option combinations (order, size, both = refused, "
+        "none; unknown nodes), degree sums against side sizes (handshake), weighted cells and anti-diagonals of the signature, and "
+        "the reversed hypergraph built by the library (degrees exchanged, signature transposed, exact / weak unchanged); "
+        "a case is distinct by its final canonical hyperedge list and node list; non-trivial when exact, "
         "strong and weak reciprocity are pairwise different for some size")
 ASSUMPTIONS = ["hyperedges have disjoint non-empty source and target sets (the property's quantifier)",
                "labels of one hypergraph are mutually comparable and pairwise unequal (1 / 1.0 / True never together, no "
@@ -634,6 +638,8 @@ def observe(ctx, case, h, ref, slot, rank, lines, expect, bounds, filters, full)
             lines.append(f"{name} {m}")
             # implementation answer rendered exactly when it is the rounded quotient of the oracle's fraction
             expect.append(("tab", name, m, dict(tab)))
+            lines.append(f"l{name} {m}")      # the same routine run loop by loop (Model/C12Ext.lean)
+            expect.append(("tab", name, m, dict(tab)))
             again.append((lambda name=name, m=m, f={"exact": exact_reciprocity, "strong": strong_reciprocity,
                                                     "weak": weak_reciprocity}[name]: f(h, m), dict(tab), tab))
         for k in range(2, m + 1):
@@ -659,10 +665,13 @@ def observe(ctx, case, h, ref, slot, rank, lines, expect, bounds, filters, full)
                 ctx.violation({**case, "m": mm, "default_bound": not args}, f"signature {list(sig)} != per-shape counts {want}")
             if int(sum(sig)) != sum(1 for e in E if esize(e) <= mm):
                 ctx.violation({**case, "m": mm}, "signature cells do not sum to the number of hyperedges within the bound")
+            if len(sig) == len(want):
+                ext_signature(ctx, {**case, "m": mm}, h, E, sig, mm, lines, expect, bool(args))
             if args:
                 lines.append(f"sig {mm}")
                 expect.append(("plain", hgxv.enc_list([int(x) for x in sig])))
                 again.append((lambda mm=mm: [int(x) for x in hyperedge_signature_vector(h, mm)], [int(x) for x in sig], sig))
+    degsum = {}
     # every filter value on its own: size=k and order=k-1 must both mean "total size k" (order=0 included)
     for size, kw in filters:
         for which, seqf, onef, side in (("indeg", in_degree_sequence, in_degree, 0), ("outdeg", out_degree_sequence, out_degree, 1)):
@@ -681,6 +690,11 @@ def observe(ctx, case, h, ref, slot, rank, lines, expect, bounds, filters, full)
                                   f"{which}({x!r}, {kw}) = {seq.get(x)} / {ones[x]}, definition gives {d}")
             lines.append(f"{which} {-1 if size is None else size}")
             expect.append(("plain", show_seq(seq, nodes, rank)))
+            if "order" not in kw:
+                try:
+                    degsum[(side, size)] = sum(seq[x] for x in nodes)
+                except Exception:
+                    pass
             if not kw:
                 again.append((lambda seqf=seqf: dict(seqf(h)), dict(seq), seq))
     # what is counted: the incident listings are the hyperedges of get_edges() with the node on that side
@@ -701,6 +715,18 @@ def observe(ctx, case, h, ref, slot, rank, lines, expect, bounds, filters, full)
                               f"hyperedges listed for node {x!r} ({src} / {tgt} / {inc}) are not those of get_edges() "
                               f"having it as a source / target ({ws} / {wt})")
                 break
+    ext_degrees(ctx, case, h, E, nodes, rank, lines, expect, degsum, full)
+    if full and not E:
+        try:
+            sig = hyperedge_signature_vector(h)
+            if len(sig) != 0:
+                ctx.violation(case, f"hyperedge_signature_vector of a hypergraph without hyperedges = {list(sig)}")
+            lines.append("sigdef")
+            expect.append(("plain", hgxv.enc_list([int(x) for x in sig])))
+        except Exception as ex:
+            ctx.violation(case, f"hyperedge_signature_vector() raised {type(ex).__name__}: {ex}")
+    if full and len(E) <= 40:
+        ext_reverse(ctx, case, h, E, nodes, rank, lines, expect)     # LAST model lines of this object (`rev` changes it)
     # answers are values: spoil every returned object, ask again - same answers, same hypergraph
     for ask, val, obj in again:
         try:
@@ -727,6 +753,153 @@ def observe(ctx, case, h, ref, slot, rank, lines, expect, bounds, filters, full)
     if bad:
         ctx.violation(case, "after the measures were evaluated: " + bad)
     return E, nodes, nontrivial
+
+
+# ---------------------------------------------------------------------------------------------------------------
+# extension round: the routines as the code runs them (Model/C12Ext.lean) and the identities between the measures
+
+def ext_signature(ctx, case, h, E, sig, m, lines, expect, explicit):
+    """flattened 2-d accumulation, default bound, row / column weighted sums and anti-diagonals of the vector"""
+    cells = [int(x) for x in sig]
+    w = m - 1
+    lines.append(f"lsig {m}" if explicit else "sigdef")
+    expect.append(("plain", hgxv.enc_list(cells)))
+    if not explicit:
+        return
+    sw = sum((i // w + 1) * c for i, c in enumerate(cells))
+    tw = sum((i % w + 1) * c for i, c in enumerate(cells))
+    diag = [sum(cells[(a - 1) * w + (k - a - 1)] for a in range(1, k)) for k in range(2, m + 1)]
+    lines.append(f"sigagg {m}")
+    expect.append(("plain", hgxv.enc_list([sw, tw] + diag)))
+    # consequences of the property's words: cells weighted by their source (target) size give the number of sources
+    # (targets) of the hyperedges within the bound; the anti-diagonal a + b = k holds the hyperedges of size k
+    inb = [e for e in E if esize(e) <= m]
+    if sw != sum(len(e[0]) for e in inb) or tw != sum(len(e[1]) for e in inb):
+        ctx.violation(case, f"signature {cells}: cells weighted by source / target size give {sw} / {tw}, the hyperedges "
+                            f"within the bound have {sum(len(e[0]) for e in inb)} sources / {sum(len(e[1]) for e in inb)} targets")
+    for k, d in zip(range(2, m + 1), diag):
+        if d != sum(1 for e in E if esize(e) == k):
+            ctx.violation({**case, "size": k}, f"signature {cells}: the cells of total size {k} sum to {d}, "
+                                               f"{sum(1 for e in E if esize(e) == k)} hyperedges have that size")
+
+
+def opt(v):
+    return "N" if v is None else str(v)
+
+
+def ext_degrees(ctx, case, h, E, nodes, rank, lines, expect, degsum, full):
+    """handshake sums and the option handling of the four degree routines (order / size / both / unknown node)"""
+    from hypergraphx.measures.directed import in_degree, out_degree, in_degree_sequence, out_degree_sequence
+    for size in sorted({k for (_, k) in degsum}, key=lambda k: -1 if k is None else k):
+        if (0, size) not in degsum or (1, size) not in degsum:
+            continue
+        sel = [e for e in E if size is None or esize(e) == size]
+        ss, st = sum(len(e[0]) for e in sel), sum(len(e[1]) for e in sel)
+        si, so = degsum[(0, size)], degsum[(1, size)]
+        lines.append(f"sums {-1 if size is None else size}")
+        expect.append(("plain", hgxv.enc_list([si, so, ss, st, ss + st])))
+        if si != ss or so != st:
+            ctx.violation({**case, "filter": {"size": size}},
+                          f"in / out degrees sum to {si} / {so}, the selected hyperedges have {ss} sources / {st} targets")
+    def call(f, *a, **kw):
+        try:
+            return f(*a, **kw)
+        except Exception:
+            return "rej"
+    combos = [(0, None), (None, 1), (1, None), (None, 2), (1, 2), (0, 3), (2, 3), (None, None)]
+    if not full:
+        combos = [(1, 2), (2, None)]
+    for o, k in combos:
+        kw = {}
+        if o is not None:
+            kw["order"] = o
+        if k is not None:
+            kw["size"] = k
+        both = o is not None and k is not None
+        for which, seqf in (("seqin", in_degree_sequence), ("seqout", out_degree_sequence)):
+            seq = call(seqf, h, **kw)
+            if both and nodes and seq != "rej":
+                ctx.violation({**case, "filter": kw}, f"{seqf.__name__} with order AND size returned {seq}, the call must be refused")
+            if (not both or not nodes) and seq == "rej":
+                ctx.violation({**case, "filter": kw}, f"{seqf.__name__}({kw}) raised")
+            lines.append(f"{which} {opt(o)} {opt(k)}")
+            expect.append(("plain", seq if seq == "rej" else show_seq(seq, nodes, rank)))
+        for x in (nodes if len(nodes) <= 9 else nodes[:4] + nodes[-2:]) if full else nodes[:1]:
+            for which, onef, side in (("callin", in_degree, 0), ("callout", out_degree, 1)):
+                d = call(onef, h, fresh(x), **kw)
+                want = "rej" if both else degree_def(E, x, side, k if k is not None else (o + 1 if o is not None else None))
+                if d != want:
+                    ctx.violation({**case, "filter": kw, "node": x}, f"{onef.__name__}({x!r}, {kw}) = {d}, expected {want}")
+                lines.append(f"{which} {opt(o)} {opt(k)} {rank[x]}")
+                expect.append(("plain", str(d)))
+    absent = [x for x in rank if not has(x, nodes)][:2]
+    for x in absent:
+        for which, onef in (("callin", in_degree), ("callout", out_degree)):
+            d = call(onef, h, fresh(x))
+            if d != "rej":
+                ctx.violation({**case, "node": x}, f"{onef.__name__} of the unknown node {x!r} returned {d}")
+            lines.append(f"{which} N N {rank[x]}")
+            expect.append(("plain", str(d)))
+
+
+def ext_reverse(ctx, case, h, E, nodes, rank, lines, expect):
+    """the hypergraph with every hyperedge reversed, built by the library: in and out degrees are exchanged, the
+    signature is transposed, exact and weak reciprocity keep their values; the model follows with `rev`"""
+    from hypergraphx import DirectedHypergraph
+    from hypergraphx.measures.directed import (exact_reciprocity, strong_reciprocity, weak_reciprocity,
+                                               hyperedge_signature_vector, in_degree_sequence, out_degree_sequence)
+    m = max([esize(e) for e in E] + [2])
+    try:
+        hr = DirectedHypergraph()
+        hr.add_nodes([fresh(x) for x in nodes])
+        for (S, T) in E:
+            hr.add_edge((tuple(fresh(x) for x in T), tuple(fresh(x) for x in S)))
+        ER = [canon(e) for e in hr.get_edges()]
+        NR = list(hr.get_nodes())
+    except Exception as ex:
+        ctx.violation(case, f"building the reversed hypergraph raised {type(ex).__name__}: {ex}")
+        return
+    if len(ER) != len(E) or any(not (has(r[0], [e[1]]) and has(r[1], [e[0]])) for r, e in zip(ER, E)) \
+            or len(NR) != len(nodes) or any(not has(x, nodes) for x in NR):
+        ctx.violation(case, f"the reversed hypergraph lists {ER} / {NR}")
+        return
+    lines.append("rev")
+    expect.append(("plain", hgxv.enc_lists([[rank[x] for x in e[1]] for e in E]) + " "
+                   + hgxv.enc_lists([[rank[x] for x in e[0]] for e in E])))
+    try:
+        tabs = {"exact": exact_reciprocity(hr, m), "strong": strong_reciprocity(hr, m), "weak": weak_reciprocity(hr, m)}
+        here = {"exact": exact_reciprocity(h, m), "weak": weak_reciprocity(h, m)}
+        sig, sig0 = hyperedge_signature_vector(hr, m), hyperedge_signature_vector(h, m)
+        seqs = {(w, k): f(hr, **({} if k is None else {"size": k}))
+                for w, f in (("indeg", in_degree_sequence), ("outdeg", out_degree_sequence)) for k in (None, m)}
+        mine = {(w, k): f(h, **({} if k is None else {"size": k}))
+                for w, f in (("outdeg", in_degree_sequence), ("indeg", out_degree_sequence)) for k in (None, m)}
+    except Exception as ex:
+        ctx.violation(case, f"a measure of the reversed hypergraph raised {type(ex).__name__}: {ex}")
+        return
+    for name in ("exact", "strong", "weak"):
+        if sorted(tabs[name]) == list(range(2, m + 1)):
+            for ln in (name, "l" + name):
+                lines.append(f"{ln} {m}")
+                expect.append(("tab", name, m, dict(tabs[name])))
+        if name in here and dict(tabs[name]) != dict(here[name]):
+            ctx.violation({**case, "m": m}, f"{name}_reciprocity of the reversed hypergraph {dict(tabs[name])} != {dict(here[name])}")
+    w = m - 1
+    if len(sig) == w * w == len(sig0):
+        for ln in ("sig", "lsig"):
+            lines.append(f"{ln} {m}")
+            expect.append(("plain", hgxv.enc_list([int(x) for x in sig])))
+        if any(int(sig[a * w + b]) != int(sig0[b * w + a]) for a in range(w) for b in range(w)):
+            ctx.violation({**case, "m": m}, f"signature of the reversed hypergraph {list(sig)} is not the transpose of {list(sig0)}")
+    for (wh, k), seq in seqs.items():
+        if sorted(seq, key=repr) == sorted(nodes, key=repr) and len(seq) == len(nodes):
+            lines.append(f"{wh} {-1 if k is None else k}")
+            expect.append(("plain", show_seq(seq, nodes, rank)))
+            if any(seq[x] != mine[(wh, k)].get(x) for x in nodes):
+                ctx.violation({**case, "filter": {"size": k}}, f"{wh} sequence of the reversed hypergraph {seq} != the opposite "
+                                                               f"sequence of the hypergraph {mine[(wh, k)]}")
+        else:
+            ctx.violation(case, f"{wh} sequence of the reversed hypergraph does not list every node once")
 
 
 def ref_step(R, op, weighted):
